@@ -8,6 +8,7 @@ package c11
 import (
 	"bytes"
 	"fmt"
+	"sort"
 	"strings"
 
 	"google.golang.org/protobuf/proto"
@@ -38,6 +39,7 @@ type aclWorld struct {
 	joinReq  string
 	seeds    []aclSeed
 	rawSeeds [][]byte // marshalled RawRecord of some seeds (decoder entries)
+	lastKeys list.ReadKeyChangePayload
 }
 
 type aclSeed struct {
@@ -104,7 +106,44 @@ func (w *aclWorld) build(what string, author *aclsim.Account, build func(b list.
 	if err != nil {
 		panic(fmt.Sprintf("acl world: building %s: %v", what, err))
 	}
-	return dataOf(raw)
+	return w.canonData(dataOf(raw))
+}
+
+// canonData sorts the per-account key lists of read key changes (the builders emit them in map order) so that the
+// seed bytes are the same in every run.
+func (w *aclWorld) canonData(data []byte) []byte {
+	d := &aclrecordproto.AclData{}
+	if err := d.UnmarshalVT(data); err != nil {
+		panic(err)
+	}
+	srt := func(rk *aclrecordproto.AclReadKeyChange) {
+		if rk == nil {
+			return
+		}
+		for _, l := range [][]*aclrecordproto.AclEncryptedReadKey{rk.AccountKeys, rk.InviteKeys} {
+			sort.Slice(l, func(i, j int) bool { return bytes.Compare(l[i].Identity, l[j].Identity) < 0 })
+			// the builder drew the ephemeral keys in map order too: encrypt again in the sorted order
+			for _, k := range l {
+				pub, err := crypto.UnmarshalEd25519PublicKeyProto(k.Identity)
+				if err != nil {
+					panic(err)
+				}
+				rkProto, _ := w.lastKeys.ReadKey.Marshall()
+				if k.EncryptedReadKey, err = pub.Encrypt(rkProto); err != nil {
+					panic(err)
+				}
+			}
+		}
+	}
+	for _, c := range d.AclContent {
+		srt(c.GetReadKeyChange())
+		srt(c.GetAccountRemove().GetReadKeyChange())
+	}
+	out, err := d.MarshalVT()
+	if err != nil {
+		panic(err)
+	}
+	return out
 }
 
 func newAclWorld() *aclWorld {
@@ -143,7 +182,8 @@ func newAclWorld() *aclWorld {
 		if err != nil {
 			panic(err)
 		}
-		return list.ReadKeyChangePayload{MetadataKey: meta, ReadKey: crypto.NewAES()}
+		w.lastKeys = list.ReadKeyChangePayload{MetadataKey: meta, ReadKey: crypto.NewAES()}
+		return w.lastKeys
 	}
 	type B = list.AclRecordBuilder
 	type R = *consensusproto.RawRecord
@@ -360,6 +400,14 @@ func (w *aclWorld) typed(sd *aclSeed) (out []job) {
 						ml := m.Mutable(fd).List()
 						ml.Append(protoreflect.ValueOfMessage(proto.Clone(ml.Get(0).Message().Interface()).ProtoReflect()))
 					})
+					if proto.Size(l.Get(0).Message().Interface()) <= 256 {
+						apply(path, fname+":first-x4096", func(m protoreflect.Message) {
+							ml := m.Mutable(fd).List()
+							for k := 0; k < 4095; k++ {
+								ml.Append(ml.Get(0)) // aliasing is fine: the clone is only marshalled
+							}
+						})
+					}
 					apply(path, fname+":empty-element-appended", func(m protoreflect.Message) {
 						ml := m.Mutable(fd).List()
 						ml.Append(ml.NewElement())
@@ -374,6 +422,12 @@ func (w *aclWorld) typed(sd *aclSeed) (out []job) {
 					apply(path, fname+":first-duplicated", func(m protoreflect.Message) {
 						ml := m.Mutable(fd).List()
 						ml.Append(protoreflect.ValueOfBytes(append([]byte{}, ml.Get(0).Bytes()...)))
+					})
+					apply(path, fname+":first-x4096", func(m protoreflect.Message) {
+						ml := m.Mutable(fd).List()
+						for k := 0; k < 4095; k++ {
+							ml.Append(ml.Get(0))
+						}
 					})
 					for _, a := range keyAlts {
 						apply(path, fname+"[0]="+a.name, func(m protoreflect.Message) { m.Mutable(fd).List().Set(0, protoreflect.ValueOfBytes(a.v)) })
@@ -457,7 +511,18 @@ func (aw *aclWorker) drop(mode string, obs *aclsim.Account) { delete(aw.lists, m
 
 func aclOpts(depth int) func(bool) mutate.Opts {
 	return func(thorough bool) mutate.Opts {
-		return mutate.Opts{Kinds: "S B1 B2 B3 F1", SmallMax: 2, AllBytes: thorough, Depth: depth}
+		return mutate.Opts{Kinds: "S B1 B2 B3 F1", SmallMax: 2, AllBytes: thorough, Depth: depth, RepMax: 256 << 10}
+	}
+}
+
+// aclOptsNoSmall: the small strings only in the thorough tier (the ValidateRawRecord entry runs them in both).
+func aclOptsNoSmall(depth int) func(bool) mutate.Opts {
+	return func(thorough bool) mutate.Opts {
+		o := mutate.Opts{Kinds: "B1 B2 B3 F1", AllBytes: thorough, Depth: depth, RepMax: 256 << 10}
+		if thorough {
+			o.Kinds, o.SmallMax = "S B1 B2 B3 F1", 2
+		}
+		return o
 	}
 }
 
@@ -490,7 +555,7 @@ func registerACL(c *vk.Ctx) {
 	register(&entry{
 		name:  "acl.AddRawRecord",
 		what:  "AclList.AddRawRecord (fully validating list, victim's keys) of the same re-signed records, id = CID of the mutant",
-		seeds: seeds, opts: aclOpts(6), extra: extra, worker: newWorker,
+		seeds: seeds, opts: aclOptsNoSmall(6), extra: extra, worker: newWorker,
 		call: func(wk any, si int, data []byte) error {
 			aw := wk.(*aclWorker)
 			sd := &w.seeds[si]
@@ -504,7 +569,7 @@ func registerACL(c *vk.Ctx) {
 	register(&entry{
 		name:  "acl.pipeline",
 		what:  "production path: the coordinator (non-member, full validation) validates the re-signed record, the acceptor signs it, the victim's non-validating client list (recordverifier.New(network key), keep-identity decode) ingests it with AddRawRecord",
-		seeds: seeds, opts: aclOpts(6), extra: extra, worker: newWorker,
+		seeds: seeds, opts: aclOptsNoSmall(6), extra: extra, worker: newWorker, passes: 3,
 		call: func(wk any, si int, data []byte) error {
 			aw := wk.(*aclWorker)
 			sd := &w.seeds[si]
